@@ -7,6 +7,7 @@
 (*   Sizes: N, mod, tmp = list of <<op, nrows, ncols, a_size, res_size,     *)
 (*          bytes reported by the *_tmp_bytes function>>, bytes = list of   *)
 (*          <<kind, size, nrows, ncols, bytes reported by bytes_of_*>>      *)
+(*   Layout: kind, m, nb, size, tab, tabal, need, bufs, bufal, bufsize, data*)
 (*   Scope: what, N, held (bytes in use while the object exists), leak      *)
 (*          (bytes still in use after its delete)                           *)
 EXTENDS Extents, TLC, Json, IOUtils, SequencesExt
@@ -20,7 +21,16 @@ SizesOk(ev) ==
   /\ \A i \in 1 .. Len(ev.bytes) : LET t == ev.bytes[i] IN t[5] = BytesOf(t[1], ev.N, t[2], t[3], t[4], ev.mod)
 \* an allocation scope new_* ... delete_*: memory is held while the object lives and all of it is returned
 ScopeOk(ev) == ev.held > 0 /\ ev.leak = 0
-EventOk(ev) == CASE ev.e = "Step" -> StepOk(ev) [] ev.e = "Sizes" -> SizesOk(ev) [] ev.e = "Scope" -> ScopeOk(ev) [] OTHER -> FALSE
+\* a precomputed table object with library-owned work buffers (new_{reim,cplx}_{fft,ifft}_precomp(m, num_buffers)): offsets inside its
+\* heap block; need = bytes of the twiddle table the schedule consumes (length of FftSchedule!TableOf), data = bytes of one vector
+LayoutOk(ev) ==
+  /\ ev.tab >= 40 /\ ev.tabal = 0 /\ ev.tab + ev.need <= ev.size
+  /\ Len(ev.bufs) = ev.nb /\ ev.bufsize >= ev.data
+  /\ \A i \in 1 .. ev.nb : /\ ev.bufs[i] >= ev.tab + ev.need              \* not inside the table
+                              /\ ev.bufs[i] + ev.data <= ev.size            \* inside the block
+                              /\ ev.bufal[i] = 0
+                              /\ \A j \in 1 .. ev.nb : j > i => (ev.bufs[j] >= ev.bufs[i] + ev.data \/ ev.bufs[i] >= ev.bufs[j] + ev.data)
+EventOk(ev) == CASE ev.e = "Layout" -> LayoutOk(ev) [] ev.e = "Step" -> StepOk(ev) [] ev.e = "Sizes" -> SizesOk(ev) [] ev.e = "Scope" -> ScopeOk(ev) [] OTHER -> FALSE
 
 Init == l = 1 /\ bad = {}
 Next == l <= Len(Tr) /\ l' = l + 1 /\ bad' = IF EventOk(Tr[l]) THEN bad ELSE bad \cup {l}
